@@ -388,3 +388,21 @@ pub fn context_variants(base: &[u8], positions: &[usize]) -> Vec<(String, Vec<u8
     }
     out
 }
+
+/// Generators that are supposed to be independent random elements must not be the same element by construction: a pair
+/// that is the *same term* (or provably equal under the hypotheses) means one was copied from the other - a Pedersen
+/// commitment over them is not binding.  Different terms with different shadow values are a witness that they can differ.
+pub fn independent_generators(name: &str, key: &str, hyps: &[F], gens: &[(String, Scalar)]) {
+    for i in 0..gens.len() {
+        for j in (i + 1)..gens.len() {
+            let (a, b) = (gens[i].1, gens[j].1);
+            let same = a.term() == b.term() || (a.shadow() == b.shadow() && matches!(eng::valid(&format!("{}: {} == {} for every randomness?", name, gens[i].0, gens[j].0), hyps, &eq(a, b)), Tri::Yes));
+            if same {
+                eng::finding(key, &format!("{}: generators {} and {} are the same element for every randomness stream (commitments over them are not binding)", name, gens[i].0, gens[j].0), None, json!({"kind": "none"}));
+            }
+        }
+    }
+    eng::ctx(|c| {
+        c.obligations.push(eng::ObRecord { name: format!("{}: {} generators pairwise independent (distinct terms, distinct shadow values)", name, gens.len()), kind: "ENUM", verdict: "held".into(), answer: "structural".into(), ms: 0.0, bytes: 0, nvars: 0, nasserts: 0, cross: vec![] })
+    });
+}
